@@ -73,7 +73,9 @@ def plant(fault, level, delta, w, n):
     elif fault == 13:  # orphan signal (no owner / other owner)
         add(Inst("bad", cell, {"a": Orphan(0 if delta > 0 else 1, w), "b": g}))
     elif fault == 14:  # orphan inside a concatenation / anonymous bundle
-        if delta > 0:  # the foreign signal is NOT the first part of the concatenation
+        if delta > 0 and w >= 2:  # the foreign signal is the LAST part of a concatenation that stays a concatenation
+            add(Inst("bad", cell, {"a": Cat((Slc(Sig("k"), 0, w - 1), Orphan(0, 1))), "b": g}))
+        elif delta > 0:
             add(Inst("bad", cell, {"a": bus, "b": Slc(Cat((g, Orphan(0, 1), g)), 1, 2)}))
         else:
             add(Inst("bad", bleaf, {"b": Anon((("x", Sig("k")), ("y", Orphan(1, 1)))), "g": g}))
